@@ -1988,7 +1988,7 @@ meta:
 				start = l->start + len + 1;
 				len = l->start + l->len - start;
 
-				if (char_is_line_ending(source[start + len])) {
+				if (len && source[start + len] != '\0' && char_is_line_ending(source[start + len])) {
 					len--;
 				}
 
